@@ -478,6 +478,17 @@ class FnVerifier(Verifier):
             self.closure_env[n] = fresh(k, n)
         for n in ctr.yield_acc:
             st.env[n] = VInt(0)
+        # module-level constants named in globals_: distinct live objects are distinct values, none of them is None
+        gl = []
+        for n_ in ctr.globals_:
+            live = getattr(self.live_mod, n_, None)
+            v_ = self.global_obj(st, n_)
+            if isinstance(v_, VRef) and live is not None:
+                st.pc.append(v_.t != 0)
+                for (o_, w_) in gl:
+                    if o_ is not live:
+                        st.pc.append(v_.t != w_.t)
+                gl.append((live, v_))
         # the static class of a parameter gives its isinstance facts
         for n, v in list(st.env.items()) + list(self.closure_env.items()):
             if isinstance(v, VRef) and v.cls and classes.get(v.cls) is not None:
